@@ -406,4 +406,6 @@ output_dtype : {self.output_dtype}
             input_shape=input_shape,
             output_shape=self.output_shape,
             eval_fn=lambda x: self(concat_args(x)),
+            input_dtype=self.input_dtype,
+            output_dtype=self.output_dtype,
         )
